@@ -93,11 +93,26 @@ def prepare(tier):
 
 
 def units(tier):
-    return gen.chunks(len(_schemas(tier)), 12)
+    return gen.chunks(len(_schemas(tier)), 12) + [["HOW", how] for how in ("spec", "composed")]
+
+
+def two_rule_schemas():
+    ps = PATHS8
+    rules2 = [T.rule(T.path(p), CONDS[1], cast) for p in ps for cast in CASTS + [()]]
+    return [("schema", (a, b)) for a, b in itertools.product(rules2, repeat=2) if a[3] or b[3]][::3]
 
 
 def run_unit(unit, tier):
     res = Result()
+    if unit[0] == "HOW":
+        # the same 2-rule schemas, but (spec) loaded through Schema.from_json_like -- all in ONE process, so that rules of
+        # different casts are loaded next to each other -- or (composed) built as Schema([r1]), validated once, and
+        # completed with add_schema(Schema([r2]), DataPath())
+        docs = documents()[::4]
+        for si, st in enumerate(two_rule_schemas()):
+            for di, doc in enumerate(docs):
+                check_case(res, st, doc, key=(unit[1], si, di), how=unit[1])
+        return res
     ss = _schemas(tier)
     docs = documents()
     for si in range(unit[0], unit[1]):
@@ -109,7 +124,7 @@ def run_unit(unit, tier):
 
 def replay(case):
     res = Result()
-    check_case(res, case["schema"], case["doc"], key=("replay",))
+    check_case(res, case["schema"], case["doc"], key=("replay",), how=case.get("how", "api"))
     return list(res.violations.values())
 
 
@@ -136,10 +151,25 @@ def sig_of(st):
     return "%d-rule:%s" % (len(st[1]), "+".join(shape(r[1]) + ("^" + r[3][0][1] if r[3] else "") for r in st[1]))
 
 
-def check_case(res, st, doc, key):
+def build_how(st, how):
+    if how == "api":
+        return T.build_schema(st)
+    from mc import specs as S
+    from valida.schema import Schema
+    from valida.datapath import DataPath
+    if how == "spec":
+        return Schema.from_json_like([S.rule_spec(r) for r in st[1]])
+    # composed: the first rule alone, used once, then the others added at the empty root
+    s = T.build_schema(("schema", st[1][:1]))
+    s.validate({"a": "3", "zz": ["true"]})
+    s.add_schema(T.build_schema(("schema", st[1][1:])), DataPath())
+    return s
+
+
+def check_case(res, st, doc, key, how="api"):
     res.count("evaluations")
     res.state(*key)
-    case = {"schema": st, "doc": doc}
+    case = {"schema": st, "doc": doc, "how": how}
     why = conflicting(st, doc)
     if why:
         res.count("skipped: " + why)
@@ -149,7 +179,7 @@ def check_case(res, st, doc, key):
     want = ref.schema_validate(st, doc)
     res.count("transitions")
     try:
-        schema = T.build_schema(st)
+        schema = build_how(st, how)
         vd = schema.validate(d)
         cast_data = vd.cast_data
         got = [(rt.is_valid, rt.tested, [tuple(f.path) for f in rt.failures]) for rt in vd.rule_tests]
